@@ -1,7 +1,7 @@
 (* C02 - Line time accounting is exact, inclusive of callees, and conserved.  Statements only. *)
 From Coq Require Import List ZArith QArith Bool.
 From LP Require Import Trace.ZMap Trace.Concrete Trace.ConcreteFacts Trace.Abstract Trace.Main Trace.Spec
-     Trace.Witness Trace.TimeFacts.
+     Trace.Witness Trace.TimeFacts Trace.TimeExact Trace.TimeMain.
 Import ListNotations.
 Open Scope Z_scope.
 
@@ -19,6 +19,27 @@ Theorem C02_time_is_abstract :
     no_collision codes ops = true ->
     reported_time (run codes tick 0 ops) c l = atm (a_run codes tick 0 ops) c l.
 Proof. intros codes tick ops c l H. exact (proj2 (reported_is_abstract codes tick ops c l H)). Qed.
+
+(* EXACTNESS.  g_run is the per-activation reference of the property text: one pending slot per
+   activation segment (frame f, segment s); each accepted line event closes the pending line of ITS OWN
+   segment with (clock at this event) - (clock when that line started) and opens a new one; a return event
+   (return, yield, await-suspension, unwind) closes without opening, so callee time is included and
+   suspended time excluded.  nonreentrant_hist: no thread ever has two activations of one code object with
+   a line in flight (executable; false for recursion - see C02_recursion_refuted). *)
+Theorem C02_time_exact :
+  forall codes tick ops c l,
+    no_collision codes ops = true -> nonreentrant_hist codes tick ops = true ->
+    reported_time (run codes tick 0 ops) c l = g_time (g_run codes tick 0 ops) c l.
+Proof. exact time_exact. Qed.
+
+(* non-vacuity: two interleaved instances of one generator (suspended for 1000 ticks in between) *)
+Theorem C02_time_exact_nonvacuous :
+  no_collision gen_codes gen_ops = true /\ nonreentrant_hist gen_codes 0 gen_ops = true
+  /\ reported_time (run gen_codes 0 0 gen_ops) 0 2 = 12
+  /\ reported_time (run gen_codes 0 0 gen_ops) 0 3 = 24
+  /\ g_time (g_run gen_codes 0 0 gen_ops) 0 2 = 12
+  /\ nonreentrant_hist rec_codes 0 rec_ops = false.
+Proof. exact gen_time_exact. Qed.
 
 (* time multiplied by the unit is seconds: hpTimer = sec*10^9 + nsec, unit = 10^-9 *)
 Theorem C02_unit :
